@@ -66,6 +66,7 @@ const (
 // stats of one scenario, for the non-triviality rules and labels
 type stats struct {
 	staleOnExisting, equalTSReplace, deleteMatched, deleteAtStoredTS, futureRejected, futureAccepted bool
+	hugeThreshold, legacyValue                                                                      bool
 	sharedPrefixMultiDelete, multiMixed, plainOverAtomic, atomicOverPlain, suppressedSeen            bool
 	resetWide, removeWide, connErrThenConnect, emptyNoti, acceptedSeen, collideSeen                  bool
 	ambiguous, latestChecked, metaDeleted, readd, elementEnc, keyed                                  bool
@@ -90,6 +91,8 @@ func (s *stats) labels() []string {
 	add(s.deleteAtStoredTS, "delete-at-exactly-stored-ts")
 	add(s.futureRejected, "future-rejected")
 	add(s.futureAccepted, "future-beyond-clock-accepted-by-latest")
+	add(s.legacyValue, "value-in-the-deprecated-value-field")
+	add(s.hugeThreshold, "future-threshold-near-the-int64-range(never-reject)")
 	add(s.sharedPrefixMultiDelete, "delete-2plus-through-shared-prefix")
 	add(s.multiMixed, "multi-mixed-accept-reject")
 	add(s.plainOverAtomic, "plain-over-atomic")
@@ -349,7 +352,8 @@ func sameStored(a, b *pb.Notification) bool {
 	if len(a.Update) != 1 || len(b.Update) != 1 {
 		return false
 	}
-	return proto.Equal(a.Update[0].GetVal(), b.Update[0].GetVal())
+	// (the deprecated value field counts: two updates without a TypedValue are the same value only if it agrees)
+	return proto.Equal(a.Update[0].GetVal(), b.Update[0].GetVal()) && proto.Equal(a.Update[0].GetValue(), b.Update[0].GetValue())
 }
 
 // compareAll runs the oracles that hold at every quiescent point.
@@ -620,7 +624,12 @@ func (w *world) build(name string, spec *Noti) *pb.Notification {
 				w.st.nearValue = true
 			}
 		}
-		n.Update = append(n.Update, &pb.Update{Path: up, Val: val})
+		upd := &pb.Update{Path: up, Val: val}
+		if val == nil && u.Val.Kind == "deprecated" {
+			upd = gn.MakeUpdate(up, u.Val) // the deprecated Update.value field
+			w.st.legacyValue = true
+		}
+		n.Update = append(n.Update, upd)
 	}
 	if b := spec.Bulk; b != nil && !spec.Atomic {
 		for i := b.Start; i < b.Start+b.N; i++ {
@@ -825,6 +834,9 @@ func (w *world) decide(m *mtarget, k string, in *pb.Notification, latestInclSelf
 			return acceptKind(), oStale
 		}
 		return oReplaced, ""
+	}
+	if w.sc.Threshold > 1<<40 {
+		w.st.hugeThreshold = true
 	}
 	if thr := w.sc.Threshold; thr > 0 && ts-w.clock > thr {
 		rejected := m.latest > 0 && ts-m.latest > thr
